@@ -1,0 +1,32 @@
+// SPDX-FileCopyrightText: 2020-present Open Networking Foundation <info@opennetworking.org>
+//
+// SPDX-License-Identifier: Apache-2.0
+
+//go:build verif
+// +build verif
+
+package gnmi
+
+import (
+	"github.com/onosproject/onos-config/pkg/pluginregistry"
+	sb "github.com/onosproject/onos-config/pkg/southbound/gnmi"
+	"github.com/onosproject/onos-config/pkg/store/topo"
+	configuration "github.com/onosproject/onos-config/pkg/store/v2/configuration"
+	proposal "github.com/onosproject/onos-config/pkg/store/v2/proposal"
+	transaction "github.com/onosproject/onos-config/pkg/store/v2/transaction"
+)
+
+// NewServerForVerif builds the gNMI northbound server for the external verification harness
+func NewServerForVerif(topo topo.Store, transactions transaction.Store, proposals proposal.Store,
+	configurations configuration.Store, pluginRegistry pluginregistry.PluginRegistry, conns sb.ConnManager,
+	setSizeLimit int) *Server {
+	return &Server{
+		pluginRegistry:   pluginRegistry,
+		topo:             topo,
+		transactions:     transactions,
+		proposals:        proposals,
+		configurations:   configurations,
+		conns:            conns,
+		gnmiSetSizeLimit: setSizeLimit,
+	}
+}
